@@ -376,8 +376,12 @@ def run(ctx):
     rev = W.ev(rl.path)
     sleeps = [(bb, rev.call_args(bb)) for bb, t in rl.calls() if callee_name(t["fn"].get("path", "")) == "sleep" and "thread" in t["fn"].get("path", "")]
     from lib import duration_ms
-    sl_ms = duration_ms(W, sleeps[0][1][0]) if len(sleeps) == 1 else None
-    oksl = sl_ms is not None and sl_ms <= 2000
+    sl_all = [duration_ms(W, s_[1][0]) for s_ in sleeps]
+    sl_ms = max(sl_all) if sl_all and None not in sl_all else None
+    # several sleep sites (a guard clause that sleeps and continues): fine when no pass through the loop meets two of them
+    hdrs_r = {l["header"] for l in rl.loops()}
+    twice = any(a != b and rl.reaches(a, b, avoid=hdrs_r) for (a, _x) in sleeps for (b, _y) in sleeps)
+    oksl = sl_ms is not None and sl_ms <= 2000 and not twice
     ctx.check("reporter-bound", "constant-sleep", oksl, "one reporter iteration sleeps a constant <= 2 s", "reporter sleep is %s" % [fmt(s[1][0]) for s in sleeps], ctx.loc(rl))
     ok_bound = ("param", rl.path, 2) in bound.get(rl.path, set())
     ctx.check("reporter-bound", "flag-parameter-is-KEEP_RUNNING", ok_bound, "processing_loop(keep_running) is called with KEEP_RUNNING", "the reporter's flag parameter is not bound to KEEP_RUNNING")
@@ -389,7 +393,9 @@ def run(ctx):
     ok5 = len(after) == 1 and after[0][1] == ("int", 0) and bool(joins) and all(main.reaches(j, after[0][0]) for j in joins)
     ctx.check("exit-status", "exit-0-after-joins", ok5, "after joining every thread main calls process::exit(0)", "exit paths after the spawn loop: %s" % [(main.loc(bb), fmt(a)) for bb, a in after], ctx.loc(main))
     # every spawned handle is joined
-    pushes = [bb for bb, t in main.calls() if callee_name(t["fn"].get("path", "")) == "push" and any(main.dominates(s, bb) for s in spawns)]
+    # (a handle may come out of a helper that was inlined here, through `?` / Option: the spawn then reaches the push or extend without dominating it)
+    pushes = [bb for bb, t in main.calls() if callee_name(t["fn"].get("path", "")) in ("push", "extend") and "JoinHandle" in (t.get("arg_tys") or [""])[0]
+              and any(s != bb and main.reaches(s, bb) for s in spawns)]
     # handles produced by an iterator chain are collected into the vector directly
     collected = [s_ for s_ in spawns if callee_name(main.blocks[s_].term["fn"].get("path", "")) in ("map", "collect", "extend", "for_each")]
     ctx.check("exit-status", "all-threads-joined", len(pushes) + len(collected) >= len(spawns) and bool(joins) and all(main.in_loop(j) for j in joins), "every spawned thread's handle is collected and joined",
